@@ -1213,6 +1213,9 @@ class Store:
                 if child not in self.inner:
                     if self.subschema or self.glob_declared:
                         self.inner[child] = Store(self.subschema, self)
+                        # the variables the state does not spell out
+                        # start from their declared defaults
+                        self.inner[child].apply_defaults()
                     else:
                         pass
                         # TODO: continue to ignore extra keys?
@@ -1238,6 +1241,7 @@ class Store:
                 if child not in self.inner:
                     if self.subschema or self.glob_declared:
                         self.inner[child] = Store(self.subschema, self)
+                        self.inner[child].apply_defaults()
                     else:
                         self._establish_path((child,), {})
 
@@ -1279,10 +1283,6 @@ class Store:
         self._apply_subschema_path(path)
         target.apply_defaults()
         target.set_value(added_state)
-        # nodes the state created below a glob store of the sub-schema
-        # have only the variables it spells out: the others get their
-        # declared defaults (as in Store.generate)
-        target.apply_defaults()
 
     def move(self, move, process_store):
         '''
@@ -1415,7 +1415,6 @@ class Store:
         # exist only now: give them their initial state too (as
         # Store.divide does).
         target.set_value(insertion['initial_state'])
-        target.apply_defaults()
 
         return process_updates, step_updates, flow_updates, topology_updates
 
@@ -1507,7 +1506,6 @@ class Store:
             target = self.get_path(daughter_path)
             target.apply_defaults()
             target.set_value(merged_initial_state)
-            target.apply_defaults()
 
         self._delete_path(mother_path)
         deletions.append(tuple(here + mother_path))
